@@ -533,6 +533,42 @@ func verifyAny(p *cmsx.Parts, cert *x509.Certificate, digest string) error {
 	return nil
 }
 
+// Pss: vh cms-pss — CMS signatures built by relic's pkcs7 builder with RSA-PSS (every way of stating the salt length)
+// must be accepted by openssl cms -verify.
+func Pss(args []string) {
+	r := res.New()
+	e := newEnv(r)
+	defer os.RemoveAll(e.dir)
+	ki := e.w.Keys["rsa2048"]
+	for _, h := range []crypto.Hash{crypto.SHA256, crypto.SHA384, crypto.SHA512} {
+		for _, salt := range []int{rsa.PSSSaltLengthEqualsHash, rsa.PSSSaltLengthAuto, 20, h.Size()} {
+			for _, attrs := range []bool{true, false} {
+				sb := pkcs7.NewBuilder(ki.Signer, []*x509.Certificate{ki.Leaf.Cert}, &rsa.PSSOptions{SaltLength: salt, Hash: h})
+				if err := sb.SetContentData([]byte("payload for an RSA-PSS signature")); err != nil {
+					panic(err)
+				}
+				if attrs {
+					sb.AddAuthenticatedAttribute(pkcs7.OidAttributeSigningTime, e.now.UTC())
+				}
+				psd, err := sb.Sign()
+				rep := map[string]any{"hash": h.String(), "salt": salt, "attrs": attrs}
+				r.Eval(true)
+				if err != nil {
+					r.Note("PSS %v: builder refuses: %v", rep, err)
+					continue
+				}
+				blob, _ := psd.Marshal()
+				if !e.opensslAccepts(blob) {
+					r.Fail(map[string]string{"engine": "cms-pss", "kind": "openssl-rejects"}, rep, "RSA-PSS CMS signature (%s, salt length option %d, attributes %v) built by relic is rejected by openssl cms -verify", h, salt, attrs)
+				}
+				r.Count("pss_signatures", 1)
+			}
+		}
+	}
+	os.RemoveAll(e.dir)
+	r.Emit()
+}
+
 // Replay: vh cms-replay <beh.jsonl> [max]
 func Replay(args []string) {
 	r := res.New()
